@@ -27,10 +27,14 @@ func (vm *ValidatorManager) IsNeighbor(key types.Ed25519Public) bool {
 		return false
 	}
 
-	if peerIdx, ok := vm.Grid.FindIndex(key); ok {
-		return vm.Grid.IsNeighborInEpoch(vm.SelfIndex, peerIdx)
+	// Any holder of the key in the current set that shares our row or column.
+	for i, v := range vm.Grid.Current {
+		if v.Ed25519 == key && vm.Grid.IsNeighborInEpoch(vm.SelfIndex, i) {
+			return true
+		}
 	}
-	// Not in current set: may still be a grid neighbour at the same index in Previous/Next epoch.
+	// The validator at our index in the previous/next epoch is a neighbour as well,
+	// whether or not its key is still somewhere in the current set.
 	return vm.Grid.IsSameIndexCrossEpoch(vm.SelfIndex, key)
 }
 
